@@ -117,7 +117,54 @@ fn write_dyn(b: &dyn RtcpPacketWriter, buf: &mut [u8]) -> Result<usize, RtcpWrit
 }
 
 /// C06: announced size == written size, for buffer lengths 0..=n+slack
+/// C06 for the SDES chunk / item builders: their size calculation is private, `write_into` is the public view of it
+fn c06_sub(name: &str, w: &dyn Fn(&mut [u8]) -> Result<usize, RtcpWriteError>, roomy: usize) -> Result<(), String> {
+    let mut big = vec![0xa5u8; roomy];
+    match w(&mut big) {
+        Ok(n) => {
+            if n > roomy {
+                return Err(format!("{}: write_into returned {} for a buffer of {}", name, n, roomy));
+            }
+            for l in [0usize, n.saturating_sub(1), n, n + 3] {
+                let mut buf = vec![0x5au8; l];
+                match w(&mut buf) {
+                    Ok(m) if l >= n && m == n => {}
+                    Err(RtcpWriteError::OutputTooSmall(m)) if l < n && m == n => {}
+                    other => return Err(format!("{}: write_into(len {}) = {:?} but a roomy buffer gives Ok({})", name, l, other, n)),
+                }
+            }
+            Ok(())
+        }
+        Err(RtcpWriteError::OutputTooSmall(_)) => Ok(()), // reference size estimate too small: not a verdict
+        Err(e) => {
+            let mut buf = vec![0u8; 1];
+            let r = w(&mut buf);
+            if r.as_ref().err() != Some(&e) {
+                return Err(format!("{}: write_into fails with {:?} for a roomy buffer but {:?} for a short one", name, e, r));
+            }
+            Ok(())
+        }
+    }
+}
+
 pub fn c06(cfg: &Cfg) -> Result<(), String> {
+    if let Cfg::Sdes { chunks, .. } = cfg {
+        for c in chunks {
+            let mut cb = SdesChunk::builder(c.ssrc);
+            let mut roomy = 16usize;
+            for i in &c.items {
+                let mut ib = SdesItem::builder(i.type_, i.value.as_str());
+                if !i.prefix.is_empty() {
+                    ib = ib.prefix(&i.prefix[..]);
+                }
+                let isz = 8 + i.value.len() + i.prefix.len();
+                roomy += isz;
+                c06_sub("SdesItemBuilder", &|b: &mut [u8]| ib.write_into(b), isz)?;
+                cb = cb.add_item(ib);
+            }
+            c06_sub("SdesChunkBuilder", &|b: &mut [u8]| cb.write_into(b), roomy)?;
+        }
+    }
     let is_compound = matches!(cfg, Cfg::Compound(_));
     with_writer(cfg, &mut |w: &dyn RtcpPacketWriter| {
         match w.calculate_size() {
